@@ -583,6 +583,10 @@ struct Extractor
         {
           c["id"]   = varId(C->getCapturedVar());
           c["name"] = S(C->getCapturedVar()->getNameAsString());
+          c["t"]    = S(typeStr(C->getCapturedVar()->getType()));
+          if (auto *CV = dyn_cast<VarDecl>(C->getCapturedVar()))
+            if (CV->isInitCapture())
+              c["initcap"] = true;
         }
         if (C->getCaptureKind() == LCK_ByRef)
           c["byref"] = true;
